@@ -241,11 +241,14 @@ def gen(S, tier):
         for name in ("out", "err"):
             if f.chance(0.6):
                 faults[name] = sorted({f.randrange(12) for _ in range(f.randint(1, 2))})
+    if f.chance(0.08):
+        # the stream goes away for good (closed pipe): every write after the k-th fails
+        faults["close_after"] = {f.pick(["out", "err"]): f.randrange(10)}
     return {"config": cfg, "ops": ops, "faults": faults}
 
 
 def simplify(sc):
-    if sc["faults"]["out"] or sc["faults"]["err"]:
+    if sc["faults"]["out"] or sc["faults"]["err"] or sc["faults"].get("close_after"):
         yield dict(sc, faults={"out": [], "err": []})
     if sc["config"]["extra_styles"]:
         yield dict(sc, config=dict(sc["config"], extra_styles=sc["config"]["extra_styles"][:-1]))
@@ -351,9 +354,10 @@ class _Twin(object):
         self.decorated = decorated
         name = "A" if decorated else "P"
         ansi_stream = decorated or cfg["plain_kind"] == "plain_formatter"
+        ca = sc["faults"].get("close_after") or {}
         self.streams = {
-            "out": SimOutputStream(name + ".out", log, ansi=ansi_stream, fail_at=sc["faults"]["out"]),
-            "err": SimOutputStream(name + ".err", log, ansi=ansi_stream, fail_at=sc["faults"]["err"]),
+            "out": SimOutputStream(name + ".out", log, ansi=ansi_stream, fail_at=sc["faults"]["out"], close_after=ca.get("out")),
+            "err": SimOutputStream(name + ".err", log, ansi=ansi_stream, fail_at=sc["faults"]["err"], close_after=ca.get("err")),
             "sec": SimOutputStream(name + ".sec", log, ansi=ansi_stream),
         }
 
@@ -534,6 +538,8 @@ def _run_twin(sc, tw, res, count_probes):
     # after everything: every indentation must be back to 0 - probe with a final line on each output
     for stream, tgt, method in (("out", "out", "write_line"), ("err", "err", "write_line"), ("sec", "sec", "write_line")):
         tw.streams[stream].fail_at = set()
+        tw.streams[stream].close_after = None
+        tw.streams[stream]._closed = False  # the harness reopens the pipe for the final indentation probe
         mk = tw.mark()
         getattr(tw.targets[tgt], method)("END")
         tw.records.append((("end", stream), "write", ("END", 0, True, False, tgt), tw.since(mk, stream), (tgt, method, 0, 0, 0, False)))
